@@ -51,7 +51,7 @@ D30 = 30 * 24 * 3600 * 10**9
 
 
 def plan(tier):
-    return 320 if tier == "quick" else 6000
+    return 480 if tier == "quick" else 6000
 
 
 def budget(tier):
